@@ -1242,7 +1242,11 @@ def hb_check(master, worker, rounds):
                 # an earlier open of the same fence: must be closed again before this wait
                 if not hb(nd, o):
                     continue
-                closed = any(e2["k"] == "close" and e2.get("f") in (f, "ALL") and hb(nd, n2) and hb(n2, w) for n2, e2 in evs)
+                # the close must be ordered before the wait independently of the open this wait is
+                # meant for (otherwise the waiter can run ahead on the stale open)
+                Gp = G.copy()
+                Gp.remove_edge(o, w)
+                closed = any(e2["k"] == "close" and e2.get("f") in (f, "ALL") and hb(nd, n2) and nx.has_path(Gp, n2, w) for n2, e2 in evs)
                 if not closed:
                     msg = "wait() of the %s on fence %s (line %s) can be satisfied by the stale open() at line %s of an earlier phase: no close() of the fence is ordered between them (the waiter runs ahead: race / later deadlock)" % (
                         w[0], f, E[w]["l"], e["l"])
